@@ -3,3 +3,5 @@ import SspModel.Props.C20
 #print axioms Model.C20.gen_mom0
 #print axioms Model.C20.gen_mom1
 #print axioms Model.C20.gen_getmass
+#print axioms Model.C20.kIntegral_spec
+#print axioms Model.C20.density_pos
